@@ -528,6 +528,7 @@ def run(res, tier):
     res.rule("RND-7", "after the noise sink has added the error to a buffer, nothing plainly overwrites that buffer (store that is not read-modify-write, zero/fill/copy, overwrite-type HAL op, including inside later closures) before it is consumed")
     res.rule("RND-8", "fixed-Hamming-weight samplers set each of their hw slots to a value that is non-zero for every value of the random bit")
     res.rule("RND-10", "sampling kernels over a coefficient slice traverse the whole slice on every returning path (no narrowed iterator, fixed-width chunks only with their remainder)")
+    res.rule("WR-1", "the limb-level sampling functions (`*sampling.rs`) that overwrite a column write every limb of it (limb coverage of C11, restricted to the samplers)")
     res.rule("RND-9", "sigma and truncation bound of every Gaussian sampling site carry the same scale factor")
     res.rule("RND-5", "HashMap iteration flows into an order-insensitive consumer or is sorted before use")
     res.assumptions = ["noise/mask sink implementations (sampling kernels) are as documented (C01/C10 territory)", "do-while abstraction: an encryption over zero rows/columns writes no cell"]
@@ -546,6 +547,9 @@ def run(res, tier):
         res.floor("RND-8", "fixed-weight samplers", n8, 2)
         n10 = rnd10(p, res)
         res.floor("RND-10", "slice sampling kernels", n10, 4)
+        from .c11 import wr1
+        nw, _ = wr1(p, res, restrict=lambda f: f.file.endswith("sampling.rs"))
+        res.floor("WR-1", "sampling shape functions", nw, 2)
 
         # ---------------- RND-1
         n1 = 0
